@@ -18,7 +18,8 @@ RULE = ("Hypothesis draws a satisfiable SchemaSpec (depth<=3) and a plain value 
         "of v); (d) dict keys not mentioned in v keep a canon-identical member schema and the same "
         "optional flag. distinct = canonical JSON of (spec, value); non-trivial = v is a partial dict "
         "at depth>=1, or the target has a window list form, or an any with >=2 alternatives")
-ASSUMPTIONS = ["float tolerance: isclose default, or 1.01*10**-p for the coarsest precision declared in R",
+ASSUMPTIONS = ["an instance of a plain dict subclass (defaultdict, OrderedDict, __missing__ dict) stands for its content",
+               "float tolerance: isclose default, or 1.01*10**-p for the coarsest precision declared in R",
                "the open C01 finding (empty alphabet cannot be generated from) is not re-reported here"]
 BUDGET = {"quick": (1200, 4), "thorough": (20000, 16)}
 
@@ -32,6 +33,25 @@ def _r(x):
         return repr(x)
     except Exception as e:  # noqa
         return f"<unprintable {type(x).__name__}: {e!r}>"
+
+
+def _unwrap(v):
+    from ..codec import Wrapped
+    if isinstance(v, Wrapped):
+        return _unwrap(v.value)
+    if isinstance(v, list):
+        return [_unwrap(x) for x in v]
+    if isinstance(v, dict):
+        return {k: _unwrap(x) for k, x in v.items()}
+    return v
+
+
+def _plain_copy(v):
+    if isinstance(v, dict):
+        return {k: _plain_copy(x) for k, x in v.items()}
+    if isinstance(v, list):
+        return [_plain_copy(x) for x in v]
+    return v
 
 
 def _unspecified(Sn, Rn, v, where="_"):
@@ -91,6 +111,26 @@ def check(case, ctx):
         return
     v = values.realize(case["value"])
     ctx.label("kind:" + case["kind"])
+    if case["kind"] == "dict-subclass":
+        # a dict subclass instance stands for its content: the outcome must be that of the equal plain dict
+        # (and the argument must come back untouched - a defaultdict must not grow keys)
+        plain = _unwrap(case["value"])
+        before = _plain_copy(v)
+
+        def outcome(x):
+            try:
+                return ("ok", canon.canon(substitute(S, x)))
+            except SubstitutionError:
+                return ("refused",)
+            except Exception as e:  # noqa
+                return ("raised", type(e).__name__)
+        o_sub, o_plain = outcome(v), outcome(values.realize(plain))
+        if o_sub != o_plain:
+            raise Violation("dict-subclass-differs", f"{_r(S)} % {v!r} -> {o_sub[0]}, but % {plain!r} (the same "
+                                                     f"content as a plain dict) -> {o_plain[0]}")
+        if _plain_copy(v) != before:
+            raise Violation("argument-mutated", f"substitute changed its argument {before!r} into {v!r}")
+        ctx.label("dict-subclass-equivalence-checked")
     try:
         R = substitute(S, v)
     except SubstitutionError:
